@@ -87,7 +87,7 @@ theorem insertOpt_filter (o : Opt) (l : List Opt) (n : Nat) :
     (insertOpt o l).filter (fun p => p.num == n) =
       (if o.num == n then [o] else []) ++ l.filter (fun p => p.num == n) := by
   induction l with
-  | nil => simp [insertOpt, List.filter]
+  | nil => by_cases h : (o.num == n) = true <;> simp [insertOpt, List.filter, h]
   | cons q qs ih =>
     simp only [insertOpt]
     split
@@ -100,7 +100,7 @@ theorem insertOpt_filter (o : Opt) (l : List Opt) (n : Nat) :
           simp only [beq_eq_false_iff_ne, ne_eq]
           omega
         simp [ho, this, List.filter]
-      · simp [ho]
+      · simp [ho, List.filter_cons]
 
 /-- stability: options of one number keep the order in which they were added -/
 theorem sortOpts_stable (l : List Opt) (n : Nat) :
